@@ -125,6 +125,34 @@ func runGates(c *Ctx, specs []GateSpec) {
 					found = append(found, l)
 				}
 			}
+			if len(found) > 1 {
+				// several loops over the same collection: the one meant is the one whose body holds what the spec is about
+				// (a callee it must pass, or the first symbol of its first guard)
+				var want []string
+				for _, mc := range sp.MustCall {
+					want = append(want, mc...)
+				}
+				for _, g := range sp.Guards {
+					for _, alt := range g.Alts {
+						if len(alt) > 0 {
+							want = append(want, alt[0])
+						}
+					}
+				}
+				var keep []Loop
+				for _, l := range found {
+					m := f.Mentions(l.Stmt, nil)
+					for _, w := range want {
+						if m[w] {
+							keep = append(keep, l)
+							break
+						}
+					}
+				}
+				if len(keep) > 0 {
+					found = keep
+				}
+			}
 			if len(found) != 1 {
 				c.Lost(base+".loop", fmt.Sprintf("%s: expected exactly one loop ranging over %s, found %d", FuncKey(fd.Obj), sp.LoopOver, len(found)))
 				continue
